@@ -12,6 +12,9 @@ ENGINES = [
      "kind_free_text": "translation validation: the real compiler's emitted cranelift IR (captured by hook H2 through /verif/extract) is executed "
                        "symbolically path by path in z3 with symbolic arguments and compared with a reference semantics of the source; "
                        "every model is replayed against the real JIT"},
+    {"name": "B", "path": "/verif/tv/builtins_b.py", "serves_properties": ["C17"],
+     "kind_free_text": "MIR bodies of the default runtime's float built-ins (found through their registration in the MIR dump) executed over z3 "
+                       "floating-point terms and compared with the documented IEEE-754 operation; models replayed on the real JIT"},
     {"name": "M", "path": "/verif/tv/mir.py", "serves_properties": ["C20"],
      "kind_free_text": "symbolic interpretation of the nightly MIR dump of lir::eval::eval's instruction arms, compared in z3 with engine T's "
                        "encoding of the CLIF emitted for the same LIR"},
@@ -87,10 +90,12 @@ claim("C16", MC,
       "Kani/CBMC bounded model checking with sequentialised schedules (symbolic preemption points)", "K", "DESIGN.md 5/C16, 10.3")
 claim("C17", MC,
       "Kani/CBMC: byte view {len, get, slice} on every UTF-8 string <= 2 bytes (thorough 3) and line view {slice, get} on every ASCII string, all indices in "
-      "{0..len+1} u {usize::MAX}, against explicit byte-loop references; no panic.",
-      "Only the byte- and line-indexed string views; everything that is a one-line delegation to std, the char view, floats, to_string, IpAddr/Prefix are outside. "
-      "StringLines::get is a recorded known finding.",
-      "Kani/CBMC differential checking of string views against byte-loop references", "K", "DESIGN.md 5/C17")
+      "{0..len+1} u {usize::MAX}, against explicit byte-loop references; no panic. Engine B: the MIR bodies of the registered f32/f64 built-ins floor, ceil, round, "
+      "abs, sqrt, is_nan, is_infinite, is_finite (pow: argument order only) executed over z3 floating-point terms and decided equal to the IEEE-754 operation the "
+      "documentation names, for every bit pattern; counterexamples replayed on the real JIT.",
+      "The byte- and line-indexed string views and the float built-ins; String methods delegating to std, the char view (std iterator adaptors exceed 24 GB in CBMC "
+      "even for 2 ASCII bytes), to_string, IpAddr/Prefix accessors are outside. StringLines::get is a recorded known finding.",
+      "Kani/CBMC differential checking of string views against byte-loop references; z3 floating-point theory over the MIR bodies of the float built-ins", "K+B", "DESIGN.md 5/C17, 10.5b")
 claim("C20", TV,
       "Engine M: for every scalar program of the corpus without calls (straight-line, branching and looping), the LIR the real lowering produced is run "
       "path-wise through the MIR of the evaluator's instruction arms (symbolic payloads) and z3 decides that, wherever the evaluator does not stop loudly, "
